@@ -54,6 +54,8 @@ func isNilRejecting(decider string) bool {
 }
 
 func runC05(c *Ctx, r *Run) {
+	checkDecodedPointerNil(c, r, "PANIC-6")
+	checkFailureReported(c, r, "ERR-3")
 	r.Rule("PANIC-1", "containment: Accept of every handler defers, before any other work and after the deferred unlock, a function that recovers and ends the session through the abort transition")
 	r.Rule("PANIC-2", "worker goroutines: every peer-controlled field touched by a closure handed to the pool is covered by a nil-rejecting validator guard (inside the closure or dominating the pool call); pointer-typed sub-protocol messages are nil-checked by the consuming round")
 	r.Rule("PANIC-3", "explicit panic sites are the tabled ones (each with the reason it is unreachable from peer data or contained)")
